@@ -16,6 +16,24 @@ pub fn extra_space() -> Vec<StructProg> {
         out.push(make_prog(vec![Member::plain("flag", Ty::Scalar(Scalar::Bool)), Member::plain("v", Ty::Vec(3, f))], space, format!("bool|{space}|scalar")));
         out.push(make_prog(vec![Member::plain("v", Ty::Vec(2, Scalar::Bool)), Member::plain("w", Ty::Array(Box::new(Ty::Scalar(Scalar::Bool)), 3))], space, format!("bool|{space}|vec-array")));
     }
+    // 64-bit integer members (naga accepts them; the unchanged generator refuses them - if a tree emits them,
+    // kind / width / counts are checked like every other member)
+    for s64 in [Scalar::I64, Scalar::U64] {
+        let shapes: Vec<(String, Ty)> = vec![
+            ("scalar".into(), Ty::Scalar(s64)),
+            ("vec2".into(), Ty::Vec(2, s64)),
+            ("vec3".into(), Ty::Vec(3, s64)),
+            ("vec4".into(), Ty::Vec(4, s64)),
+            ("array-vec2".into(), Ty::Array(Box::new(Ty::Vec(2, s64)), 3)),
+            ("array-scalar".into(), Ty::Array(Box::new(Ty::Scalar(s64)), 2)),
+            ("rt-vec4".into(), Ty::RtArray(Box::new(Ty::Vec(4, s64)))),
+        ];
+        for (label, t) in shapes {
+            let mut members = vec![Member::plain("narrow", Ty::Vec(2, Scalar::U32))];
+            members.push(Member::plain("wide", t));
+            out.push(make_prog(members, "storage", format!("int64|{}|{label}", s64.wgsl())));
+        }
+    }
     // vertex / fragment input structs with builtins at every position
     let attr_types = [Ty::Scalar(f), Ty::Vec(2, f), Ty::Vec(3, f), Ty::Vec(4, f), Ty::Scalar(Scalar::U32), Ty::Vec(2, Scalar::I32), Ty::Vec(4, Scalar::U32), Ty::Vec(3, Scalar::F64)];
     for (i, a) in attr_types.iter().enumerate() {
@@ -52,6 +70,8 @@ fn scalar_code(s: Scalar) -> &'static str {
         Scalar::I32 => "i4",
         Scalar::U32 => "u4",
         Scalar::Bool => "b1",
+        Scalar::I64 => "i8",
+        Scalar::U64 => "u8",
     }
 }
 
@@ -66,7 +86,10 @@ pub fn expected_structural(t: &Ty, repr: Repr) -> Vec<String> {
                 Repr::Glam => wgslgen::glam_has_type(t),
                 Repr::Nalgebra => true,
             };
-            if typed {
+            if matches!(s, Scalar::I64 | Scalar::U64) && repr == Repr::Glam {
+                // glam has I64VecN / U64VecN; the statement permits the typed form or the array fall-back
+                vec![format!("vec({},{n})", scalar_code(*s)), format!("arr({},{n})", scalar_code(*s))]
+            } else if typed {
                 vec![format!("vec({},{n})", scalar_code(*s))]
             } else {
                 vec![format!("arr({},{n})", scalar_code(*s))]
@@ -155,7 +178,7 @@ fn shape_of_named(ty: &str) -> Result<String, String> {
 
 fn cfg_for(p: &StructProg, repr: Repr) -> Config {
     // encase on: runtime arrays are only supported with it
-    Config { encase: p.key.starts_with("rt"), repr, ..Config::default() }
+    Config { encase: p.key.starts_with("rt") || p.key.contains("|rt-"), repr, ..Config::default() }
 }
 
 pub fn check_model(p: &StructProg, repr: Repr, text: &str) -> Vec<String> {
